@@ -135,3 +135,31 @@ Proof.
   destruct (tinfo_some t d es r0 i Ht) as (e & He & Hr & Hit & Hid). subst r0.
   split; [exact Hlive|]. rewrite Hit, Hid. exists es, e. repeat split; auto.
 Qed.
+
+(* C12 at history level: a router whose history left a single, group-free template live *)
+From WF Require Import Proofs.RefineP Proofs.WalkGreedyP.
+Lemma nodup_singleton {A} (l : list A) a : NoDup l -> (forall x, In x l <-> x = a) -> l = [a].
+Proof.
+  intros Hn H. destruct l as [|x l]; [exfalso; destruct (proj2 (H a) eq_refl)|].
+  assert (x = a) by (apply H; left; reflexivity). subst x. f_equal.
+  destruct l as [|y l]; [reflexivity|]. exfalso. assert (y = a) by (apply H; right; left; reflexivity). subst y.
+  apply NoDup_cons_iff in Hn as [Hn _]. apply Hn. left; reflexivity.
+Qed.
+
+Theorem reach_single_template_greedy b ops chk t d e p i ps :
+  live_of b ops = [(t, d)] -> parse t = Ret [e] ->
+  rsearch chk (run b ops) p = Some (i, ps) -> LL chk (exp_route e) p (map snd ps).
+Proof.
+  intros HL Ep H. pose proof (reachable_abs b ops) as A. unfold live_of in HL. rewrite HL in A.
+  pose proof (reachable_inv b ops) as [Wf Td].
+  assert (Hroutes : routes_of (r_root (run b ops)) = [(exp_route e, mk_info t false d e)]).
+  { apply nodup_singleton; [apply NoDup_of_fst, routes_nodup, Wf|].
+    intros [r0 j]. change (In (r0, j) (routes_of (r_root (run b ops)))) with (RM (r_root (run b ops)) r0 j).
+    rewrite (abs_exact _ _ A r0 j). split.
+    - intros (t0 & d0 & es & [Heq|[]] & Ep0 & Ht). inversion Heq; subst t0 d0. rewrite Ep in Ep0. inversion Ep0; subst es.
+      rewrite tinfo_single in Ht. destruct (route_eq_dec (exp_route e) r0) as [<-|]; [|discriminate]. inversion Ht. reflexivity.
+    - intros Heq. inversion Heq; subst r0 j. exists t, d, [e]. split; [left; reflexivity|]. split; [exact Ep|].
+      rewrite tinfo_single. destruct (route_eq_dec (exp_route e) (exp_route e)); [reflexivity|congruence]. }
+  unfold rsearch in H. rewrite (search_refines_W chk _ p (wf_tidy_inv _ Wf Td)), Hroutes in H.
+  eapply W_singleton_greedy. exact H.
+Qed.
